@@ -10,18 +10,28 @@ TRACE_CFG = "SPECIFICATION Spec\nCHECK_DEADLOCK FALSE\n"
 MC_CFG = "SPECIFICATION Spec\nINVARIANT StartIsDeclarative\nINVARIANT NavigationMinimal\n"
 
 
-def all_rules():
+def all_rules(order_seed=None):
+    """The 71 rules.  They are asked for in an order that depends on the worker (a rule is what its factory arguments say, whichever
+    rules were made before it)."""
     from pyoda_time import IsoDayOfWeek
     from pyoda_time.calendars import CalendarWeekRule, WeekYearRules
 
-    rules = [("iso", 4, 1, False, WeekYearRules.iso)]
+    makers = [("iso", 4, 1, False, lambda: WeekYearRules.iso)]
     for md in range(1, 8):
         for fd in range(1, 8):
-            rules.append((f"min{md}_dow{fd}", md, fd, False, WeekYearRules.for_min_days_in_first_week(md, IsoDayOfWeek(fd))))
+            makers.append((f"min{md}_dow{fd}", md, fd, False, lambda md=md, fd=fd: WeekYearRules.for_min_days_in_first_week(md, IsoDayOfWeek(fd))))
     for cwr, md in ((CalendarWeekRule.FIRST_DAY, 1), (CalendarWeekRule.FIRST_FOUR_DAY_WEEK, 4), (CalendarWeekRule.FIRST_FULL_WEEK, 7)):
         for fd in range(1, 8):
-            rules.append((f"bcl{md}_dow{fd}", md, fd, True, WeekYearRules.from_calendar_week_rule(cwr, IsoDayOfWeek(fd))))
-    return rules
+            makers.append((f"bcl{md}_dow{fd}", md, fd, True, lambda cwr=cwr, fd=fd: WeekYearRules.from_calendar_week_rule(cwr, IsoDayOfWeek(fd))))
+    idx = list(range(len(makers)))
+    if order_seed is not None:
+        r = random.Random(order_seed)
+        if order_seed % 3 == 1:
+            idx = idx[50:] + idx[:50]            # the BCL-style rules first
+        elif order_seed % 3 == 2:
+            r.shuffle(idx)
+    made = {i: makers[i][4]() for i in idx}
+    return [(makers[i][0], makers[i][1], makers[i][2], makers[i][3], made[i]) for i in range(len(makers))]
 
 
 def gen(args) -> list:
@@ -29,7 +39,7 @@ def gen(args) -> list:
     from pyoda_time import CalendarSystem, DateAdjusters, IsoDayOfWeek, LocalDate
 
     rnd = random.Random(seed)
-    rules = all_rules()
+    rules = all_rules(seed)
     cals = [CalendarSystem.for_id(c) for c in CalendarSystem.ids]
     evs = []
     for _ in range(nwin):
